@@ -1,6 +1,7 @@
 package rules
 
 import (
+	"os"
 	"fmt"
 	"go/token"
 	"go/types"
@@ -213,7 +214,12 @@ func short(s string, n int) string {
 	return s
 }
 
-func fmtPath(p *core.Path, pr *core.Prog) string { return short(p.Describe(pr), 400) }
+func fmtPath(p *core.Path, pr *core.Prog) string {
+	if os.Getenv("WASPCHECK_LONGPATHS") != "" {
+		return p.Describe(pr)
+	}
+	return short(p.Describe(pr), 400)
+}
 
 var _ = fmt.Sprintf
 
